@@ -120,7 +120,7 @@ int main(int argc, char** argv) {
     std::string mode = argv[1];
     ComputerPlayer::initEngine();
     if (mode == "classes") {
-        for (auto& c : allClasses()) printf("%s %s\n", c.name, c.property);
+        for (auto& c : allClasses()) printf("%s %s %s\n", c.name, c.property, c.kind);
         return 0;
     }
     if (mode == "gen" && argc >= 4) {
